@@ -510,6 +510,19 @@ func init() {
 		l.p("/-- `newCursor` collects the tag lines of the map `srcs`, sorts them ascending (`sort.Slice` with `<` on `tag.Line`) and")
 		l.p("fills the slice the reduction works on in that order -/")
 		l.p("def newCursorSortsSources : Bool := %s", leanBool(sorts))
+
+		// 7. ApplyState re-synchronises the iterator tree after a re-position: `X.SetBackward(true); X.SetBackward(false)` on the
+		//    cursor's iterator, under no condition other than "the position differs" (in ApplyState or in a helper it calls
+		//    under no other condition)
+		resync := false
+		if as := cur.find("crsr", "ApplyState"); as == nil {
+			problem("cursor.crsr.ApplyState not found")
+		} else {
+			resync = c04resyncIn(cur, as, 2)
+		}
+		l.p("/-- `crsr.ApplyState`, when the position differs, switches the whole iterator tree backward and forward again")
+		l.p("(`cur.it.SetBackward(true); cur.it.SetBackward(false)`) — unconditionally, with or without a filter on top -/")
+		l.p("def applyStateResyncs : Bool := %s", leanBool(resync))
 		l.write()
 	}
 }
@@ -666,4 +679,77 @@ func c04sortsThenFills(p *c04pkg, fd *ast.FuncDecl, all []*ast.FuncDecl) bool {
 		}
 	}
 	return false
+}
+
+func c04exprStr(e ast.Expr) string {
+	switch x := c04unparen(e).(type) {
+	case *ast.Ident:
+		return x.Name
+	case *ast.SelectorExpr:
+		return c04exprStr(x.X) + "." + x.Sel.Name
+	}
+	return "?"
+}
+
+// setBackwardCall: `X.SetBackward(<bool literal>)` as a statement
+func c04setBackwardCall(s ast.Stmt) (recv string, val bool, ok bool) {
+	es, isE := s.(*ast.ExprStmt)
+	if !isE {
+		return
+	}
+	c, isC := es.X.(*ast.CallExpr)
+	if !isC || len(c.Args) != 1 {
+		return
+	}
+	se, isS := c.Fun.(*ast.SelectorExpr)
+	if !isS || se.Sel.Name != "SetBackward" {
+		return
+	}
+	v, isB := c04boolLit(c.Args[0])
+	if !isB {
+		return
+	}
+	return c04exprStr(se.X), v, true
+}
+
+// the guard "the position differs": `a.Pos != b.Pos` (any operands ending in .Pos)
+func c04posGuard(e ast.Expr) bool {
+	be, ok := c04unparen(e).(*ast.BinaryExpr)
+	if !ok || be.Op != token.NEQ {
+		return false
+	}
+	return strings.HasSuffix(c04exprStr(be.X), ".Pos") && strings.HasSuffix(c04exprStr(be.Y), ".Pos")
+}
+
+// c04resyncIn: does fd contain, under no condition other than the position guard, the pair SetBackward(true); SetBackward(false)
+// on the same receiver — directly or through a same-package callee called under no other condition?
+func c04resyncIn(p *c04pkg, fd *ast.FuncDecl, depth int) bool {
+	found := false
+	var walk func(stmts []ast.Stmt)
+	walk = func(stmts []ast.Stmt) {
+		for i, s := range stmts {
+			if r1, v1, ok1 := c04setBackwardCall(s); ok1 && v1 && i+1 < len(stmts) {
+				if r2, v2, ok2 := c04setBackwardCall(stmts[i+1]); ok2 && !v2 && r1 == r2 && r1 != "?" {
+					found = true
+				}
+			}
+			switch st := s.(type) {
+			case *ast.BlockStmt:
+				walk(st.List)
+			case *ast.IfStmt:
+				// only the position guard may stand above the pair; its else branch does not count
+				if c04posGuard(st.Cond) && st.Init == nil {
+					walk(st.Body.List)
+				}
+			case *ast.ExprStmt:
+				if c, ok := st.X.(*ast.CallExpr); ok && depth > 0 {
+					if g := p.callee(c); g != nil && g != fd && c04resyncIn(p, g, depth-1) {
+						found = true
+					}
+				}
+			}
+		}
+	}
+	walk(fd.Body.List)
+	return found
 }
